@@ -2,6 +2,7 @@
 
 from __future__ import annotations
 
+import math
 from typing import TYPE_CHECKING, Literal
 
 from ropt.enums import EventType
@@ -63,6 +64,8 @@ class DefaultTrackerHandler(ResultHandler):
         self._constraint_tolerance = constraint_tolerance
         self._sources = set() if sources is None else sources
         self["results"] = None
+        self._optimal_result: FunctionResults | None = None
+        self._optimal_objective: float | None = None
 
     def handle_event(self, event: Event) -> None:
         """Handle an event.
@@ -80,12 +83,27 @@ class DefaultTrackerHandler(ResultHandler):
             filtered_results: FunctionResults | None = None
             match self._what:
                 case "best":
-                    filtered_results = _update_optimal_result(
-                        self["results"],
+                    if self["results"] is not self._optimal_result:
+                        # The stored result was changed or reset from outside:
+                        self._optimal_result = self["results"]
+                        self._optimal_objective = None
+                        if (
+                            self._optimal_result is not None
+                            and self._optimal_result.functions is not None
+                        ):
+                            objective = float(
+                                self._optimal_result.functions.weighted_objective
+                            )
+                            if not math.isnan(objective):
+                                self._optimal_objective = objective
+                    filtered_results, self._optimal_objective = _update_optimal_result(
+                        self._optimal_objective,
                         results,
                         transformed_results,
                         self._constraint_tolerance,
                     )
+                    if filtered_results is not None:
+                        self._optimal_result = filtered_results
                 case "last":
                     filtered_results = _get_last_result(
                         results,
